@@ -33,6 +33,8 @@ enum Op {
     /// one primitive handed to the visitor by a self-describing format other than
     /// serde_json text / bincode (see codec::SimDe)
     ForeignValue { ty: Ty, kind: String, raw: i64, text: String, human: bool },
+    /// a value RETURNED by the crate's own arithmetic / conversion is serialized as it comes
+    WriteDerived { kind: String, a: i64, b: i64, codec: Codec },
     Sync,
     CrashLose,
     CrashTorn { keep: usize, fill: u8 },
@@ -132,10 +134,10 @@ fn static_str(pool: &[&'static str], s: &str) -> Option<&'static str> {
 
 const CLASSES: [&str; 5] = ["panic", "out_of_range", "roundtrip", "serialize_failed", "other"];
 const OUTCOME_NAMES: [&str; 6] = ["panic", "ok_out_of_range", "ok_other_in_range", "ok_same", "ok_in_range_damaged_or_foreign", "err"];
-const PROBE_NAMES: [&str; 10] = [
+const PROBE_NAMES: [&str; 11] = [
     "decoded_exactly_min", "decoded_exactly_max", "raw_payload_one_past_a_limit", "raw_payload_integer_extreme",
     "oracle_payload_with_subsecond_part", "malformed_or_out_of_range_text_payload", "json_payload_that_is_not_a_string",
-    "value_handed_over_by_another_format", "run_on_a_fresh_thread", "other",
+    "value_handed_over_by_another_format", "run_on_a_fresh_thread", "value_produced_by_arithmetic_serialized", "other",
 ];
 
 impl Stats {
@@ -620,6 +622,40 @@ fn exec_op(op: &Op, w: &mut World, enumerate: bool, stats: &mut Stats, log: &mut
             log.write(text.as_bytes());
             None
         }
+        Op::WriteDerived { kind, a, b, codec } => {
+            let off = w.disk.data.len();
+            let mut wr = w.disk.writer(WriteFault::None);
+            let (res, ty, raw) = codec::encode_derived(kind, *a, *b, *codec, &mut wr);
+            stats.encodes += 1;
+            let len = w.disk.data.len() - off;
+            log.write(b"wd");
+            log.write(kind.as_bytes());
+            log.write_i64(raw);
+            match res {
+                Encoded::Ok => {
+                    stats.records += 1;
+                    stats.probe("value_produced_by_arithmetic_serialized");
+                    w.cat.push(Entry { off, len, ty, codec: *codec, value: Some(raw), acked: true, lost: false, payload_kind: "derived" });
+                    // immediate read-back: what the crate itself produced must come back
+                    let clean: Vec<u8> = w.disk.data[off..off + len].to_vec();
+                    let got = codec::decode_slice(ty, *codec, &clean);
+                    stats.decodes += 1;
+                    let what = format!("{} = value returned by {} (operands {} , {})", show_bytes(&clean), kind, a, b);
+                    judge(ty, *codec, "derived", &got, Some(raw), &what, stats)
+                }
+                Encoded::Err(e) => Some(Violation {
+                    class: "serialize_failed",
+                    sig: format!("serialize_failed:derived:{}", kind),
+                    detail: format!("serializing the value returned by {} (operands {}, {}) as {} failed: {}", kind, a, b, codec.name(), e),
+                }),
+                Encoded::Panic(msg) => Some(Violation {
+                    class: "panic",
+                    sig: format!("panic_serialize:derived:{}", kind),
+                    detail: format!("serializing the value returned by {} (operands {}, {}) as {} panicked: {}", kind, a, b, codec.name(), msg),
+                }),
+                Encoded::NotAValue => None,
+            }
+        }
         Op::ForeignJson { ty, json } => {
             let off = w.disk.data.len();
             w.disk.data.extend_from_slice(json.as_bytes());
@@ -790,6 +826,25 @@ fn exec_op(op: &Op, w: &mut World, enumerate: bool, stats: &mut Stats, log: &mut
                 if let Some(v) = judge(e.ty, e.codec, e.payload_kind, &got, expect, &what, stats) {
                     return Some(v);
                 }
+                // the same bytes handed to the decoder of every OTHER type, right after:
+                // may fail or give an in-range value, never an out-of-range one
+                for other in ALL_TYPES {
+                    if other == e.ty {
+                        continue;
+                    }
+                    let got2 = codec::decode_slice(other, e.codec, slice);
+                    stats.decodes += 1;
+                    let oc = match &got2 {
+                        Decoded::Ok(_) => "ok",
+                        Decoded::Err => "err",
+                        Decoded::Panic(_) => "panic",
+                    };
+                    stats.distinct(other, e.codec, "cross_type", e.ty as u64, oc);
+                    let what2 = format!("record #{} = {} (written as {})", i, show_bytes(slice), e.ty.name());
+                    if let Some(v) = judge(other, e.codec, "cross_type", &got2, None, &what2, stats) {
+                        return Some(v);
+                    }
+                }
             }
             None
         }
@@ -840,6 +895,7 @@ fn simulate_run(seed: u64, run: u64, fault_free: bool, stats: &mut Stats) -> (Sc
     let use_foreign = !fault_free && rng.chance(1, 2);
     let sync_rate = *rng.pick(&[1u64, 3, 10]);
     let mut found: Option<Violation> = None;
+    let mut last_written: Option<(Ty, i64)> = None;
 
     macro_rules! step {
         ($op:expr) => {{
@@ -865,7 +921,10 @@ fn simulate_run(seed: u64, run: u64, fault_free: bool, stats: &mut Stats) -> (Sc
                     break 'gen;
                 }
             }
-            let ty = *rng.pick(&ALL_TYPES);
+            let ty = match &last_written {
+                Some((lt, _)) if rng.chance(1, 3) => *lt,
+                _ => *rng.pick(&ALL_TYPES),
+            };
             if use_foreign && rng.chance(1, 8) {
                 // a value delivered by some other self-describing format
                 let kind = rng.pick(&codec::VALUE_KINDS).to_string();
@@ -908,10 +967,47 @@ fn simulate_run(seed: u64, run: u64, fault_free: bool, stats: &mut Stats) -> (Sc
                     let texts = foreign_texts(ty);
                     step!(Op::ForeignText { ty, text: rng.pick(&texts).to_string() });
                 }
+            } else if rng.chance(1, 10) {
+                // a value returned by the crate's own arithmetic, with operands that tend to
+                // land the result on a boundary
+                let kind = rng.pick(&codec::DERIVED_KINDS).to_string();
+                let (ta, tb) = codec::derived_operands(&kind);
+                let a = draw_value(&mut rng, ta);
+                let mut b = draw_value(&mut rng, tb);
+                const DAY: i64 = 86_400_000_000;
+                if rng.bool() {
+                    b = match kind.as_str() {
+                        "Time::add_interval_dt" => (DAY - a + *rng.pick(&[-1i64, 0, 1])).clamp(tb.lo(), tb.hi()),
+                        "Time::sub_interval_dt" => (a - DAY + *rng.pick(&[-1i64, 0, 1])).clamp(tb.lo(), tb.hi()),
+                        "Time::sub_time" => *rng.pick(&[0i64, a, DAY - 1]),
+                        "Timestamp::sub_timestamp" => (a - *rng.pick(&[DAY, -DAY, 0, 1, -1])).clamp(tb.lo(), tb.hi()),
+                        "Date::add_days" => *rng.pick(&[0i64, 1, -1, 31, 365, 366]),
+                        _ => b,
+                    };
+                }
+                let a = if kind == "Time::from(IntervalDT)" && rng.bool() {
+                    *rng.pick(&[DAY, -DAY, DAY - 1, DAY + 1, 2 * DAY, 0, -1, 43_200_000_000])
+                } else {
+                    a
+                };
+                let codec = if rng.bool() { Codec::Json } else { Codec::Bincode };
+                step!(Op::WriteDerived { kind, a, b, codec });
             } else {
                 let codec = if rng.bool() { Codec::Json } else { Codec::Bincode };
                 let fault = if use_write_faults { draw_write_fault(&mut rng) } else { WriteFault::None };
-                step!(Op::Write { ty, raw: draw_value(&mut rng, ty), codec, fault });
+                // consecutive values are often neighbours (sorted rows, the same day, one unit apart)
+                let raw = match (&last_written, rng.below(4)) {
+                    (Some((lt, lraw)), 0) if *lt == ty => {
+                        const DAY: i64 = 86_400_000_000;
+                        let unit = if ty.bin_width() == 4 { 1 } else { *rng.pick(&[1i64, 1_000_000, 3_600_000_000, DAY - 1, DAY, DAY + 1]) };
+                        let d = if rng.bool() { unit } else { -unit };
+                        let v = (lraw + d).clamp(ty.lo(), ty.hi());
+                        if ty == Ty::Oracle { v.div_euclid(1_000_000) * 1_000_000 } else { v }
+                    }
+                    _ => draw_value(&mut rng, ty),
+                };
+                last_written = Some((ty, raw));
+                step!(Op::Write { ty, raw, codec, fault });
             }
             if found.is_some() {
                 break 'gen;
@@ -1126,6 +1222,7 @@ fn script_to_json(s: &Script) -> Value {
             Op::ForeignText { ty, text } => json!({"op": "foreign_text", "type": ty.name(), "text": text}),
             Op::ForeignJson { ty, json } => json!({"op": "foreign_json", "type": ty.name(), "json": json}),
             Op::ForeignValue { ty, kind, raw, text, human } => json!({"op": "foreign_value", "type": ty.name(), "kind": kind, "raw": raw, "text": text, "human_readable": human}),
+            Op::WriteDerived { kind, a, b, codec } => json!({"op": "write_derived", "kind": kind, "a": a, "b": b, "codec": codec.name()}),
             Op::Sync => json!({"op": "sync"}),
             Op::NewDisk => json!({"op": "new_disk"}),
             Op::CrashLose => json!({"op": "crash_lose_unsynced_tail"}),
@@ -1161,6 +1258,12 @@ fn script_from_json(v: &Value) -> Result<Script, String> {
                 raw: o["raw"].as_i64().ok_or("raw")?,
                 text: o["text"].as_str().ok_or("text")?.to_string(),
                 human: o["human_readable"].as_bool().unwrap_or(true),
+            },
+            "write_derived" => Op::WriteDerived {
+                kind: o["kind"].as_str().ok_or("kind")?.to_string(),
+                a: o["a"].as_i64().ok_or("a")?,
+                b: o["b"].as_i64().ok_or("b")?,
+                codec: Codec::from_name(o["codec"].as_str().unwrap_or("")).ok_or("codec")?,
             },
             "sync" => Op::Sync,
             "new_disk" => Op::NewDisk,
